@@ -435,9 +435,21 @@ fn draw_src(r: &mut Rng) -> HashSrc {
         HashSrc::Generated(draw_data(r, len), if r.chance(1, 2) { OPT_PERMISSIVE_INT } else { OPT_PERMISSIVE_F32 })
     } else {
         let mut v = vec![0u8; 69];
-        r.fill(&mut v);
+        match r.below(20) {
+            0 => {}                                        // the all-zero hash
+            1 => v.iter_mut().for_each(|b| *b = 0xff),    // all ones
+            2 => {
+                let i = r.below(69) as usize;             // a single non-zero byte
+                v[i] = 1 << r.below(8);
+            }
+            3 => {
+                let b = r.next_u64() as u8;               // one byte value repeated
+                v.iter_mut().for_each(|x| *x = b);
+            }
+            _ => r.fill(&mut v),
+        }
         // bias the length code / checksum bytes towards the strict-parser boundaries
-        if r.chance(1, 2) {
+        if r.chance(1, 2) && v.iter().any(|&b| b != v[0]) {
             let i = r.below(4) as usize;
             v[i] = *r.pick(&[0u8, 48, 49, 168, 169, 170, 171, 255]);
         }
